@@ -62,6 +62,28 @@ def claim_texts():
     return "\n".join(out)
 
 
+def trust_table():
+    rows = ["| id | tier of last run | Print Assumptions other than *Closed under the global context* | coqchk -o (thorough tier): modules, Axioms |",
+            "|---|---|---|---|"]
+    for f in sorted(glob.glob(os.path.join(VERIF, "evidence", "*.json"))):
+        e = json.load(open(f))
+        pa = [a for a in e["coverage"].get("print_assumptions", [])
+              if a.strip() != "Closed under the global context"]
+        pa_txt = "none" if not pa else "; ".join(sorted(set(esc(a)[:260] for a in pa)))
+        ck = e["coverage"].get("coqchk") or []
+        if ck:
+            parts = []
+            for c in ck:
+                m = re.search(r"\* Axioms: (.*?) \* Constants", c.get("summary", ""))
+                parts.append("%s: %s" % (c["module"].replace("QV.Props.", ""),
+                                         esc(m.group(1))[:200] if m else "rc=%s" % c.get("rc")))
+            ck_txt = "; ".join(parts)
+        else:
+            ck_txt = "(not run in this tier)"
+        rows.append("| %s | %s | %s | %s |" % (e["property_id"], e["tier"], pa_txt, ck_txt))
+    return "\n".join(rows)
+
+
 def seeded_table():
     rows = ["| change | property | what it does | needs | confirmed (demo fails with / passes without; tests) | our check |",
             "|---|---|---|---|---|---|"]
@@ -105,7 +127,7 @@ def fix_commits():
 
 
 TABLES = {"findings": findings_table, "claims": claims_table, "seeded": seeded_table,
-          "claimtexts": claim_texts,
+          "claimtexts": claim_texts, "trust": trust_table,
           "fixcommits": fix_commits}
 
 
